@@ -37,7 +37,9 @@ MESH = {"want": ("ack",), "claim": ("mesh:subscribe-acknowledgement-differs",),
         "quick": (2, 60), "thorough": (16, 1500)}
 
 FOREVER = 0xFFFFFF
-SENDERS = [("10.0.11.2", 30490), ("2001:db8::b2", 30490, 0, 0)]
+# two link-local peers that differ in the interface they are heard on only (scope id), and a second port on one host
+SENDERS = [("10.0.11.2", 30490), ("2001:db8::b2", 30490, 0, 0), ("fe80::aa", 30490, 0, 2), ("fe80::aa", 30490, 0, 3),
+           ("10.0.11.2", 30491)]
 # instance pool: (sid, iid, maj, eventgroups)
 POOL = [(0x8001, 1, 1, (1, 2)), (0x8001, 2, 1, (1,)), (0x8002, 0xFFFF, 1, (5,)), (0x8003, 4, 0xFF, (1, 3)), (0x8004, 0xFFFF, 0xFF, (2,))]
 
